@@ -1,4 +1,5 @@
-(* C07: (c07 names n) -> (("var" "plural") ...) for indices 0..n ; (c07 declared k m) -> ("name" ...) *)
+(* C07: (c07 names n) -> (("var" "plural") ...) for indices 0..n ; (c07 declared k m) -> ("name" ...)
+        (c07 pattern-literal "regex") -> "literal"   Escape.pattern_literal ; (c07 set-literal ("v" ...)) -> "literal"   Escape.string_set_literal *)
 open Sexp
 open Model
 open Glue_sem
@@ -10,4 +11,6 @@ let handle (args : t list) : t =
       L (List.init (n + 1) (fun i -> let v = var_name (nat_of_int i) in L [of_cl v; of_cl (plural v)]))
   | [A "declared"; k; m] ->
       L (List.map of_cl (declared (nat_of_int (int k)) (nat_of_int (int m)) (cl "matches")))
+  | [A "pattern-literal"; p] -> of_cl (pattern_literal (sl p))
+  | [A "set-literal"; L vs] -> of_cl (string_set_literal (List.map sl vs))
   | _ -> raise (Parse_error "c07 op")
